@@ -854,7 +854,15 @@ archive_read_data(struct archive *_a, void *buff, size_t s)
 			r = archive_read_data_block(a, &read_buf,
 			    &a->read_data_remaining, &a->read_data_offset);
 			a->read_data_block = read_buf;
-			if (r == ARCHIVE_EOF)
+			/*
+			 * A reader reports a hole at the end of a sparse
+			 * entry only through the offset it stores with
+			 * ARCHIVE_EOF: fall through and fill it, so that a
+			 * caller that stops at the first zero return does not
+			 * lose it when a call starts right at the end of data.
+			 */
+			if (r == ARCHIVE_EOF &&
+			    a->read_data_offset <= a->read_data_output_offset)
 				return (bytes_read);
 			/*
 			 * Error codes are all negative, so the status
